@@ -2753,8 +2753,12 @@ impl<'a> Visitor<'a, '_, Error> for JSONValidator<'a> {
         Ok(())
       }
       Value::Number(n) => {
-        if is_ident_uint_data_type(self.state.cddl, ident) && n.is_u64() {
-          return Ok(());
+        if is_ident_uint_data_type(self.state.cddl, ident) {
+          // a negative number must not fall through to the generic integer
+          // branch below, which knows nothing about the sign
+          if n.is_u64() {
+            return Ok(());
+          }
         } else if is_ident_nint_data_type(self.state.cddl, ident) {
           if let Some(n) = n.as_i64() {
             if n.is_negative() {
@@ -2786,9 +2790,10 @@ impl<'a> Visitor<'a, '_, Error> for JSONValidator<'a> {
           }
         } else if let Some(kind) = ident_numeric_kind(self.state.cddl, ident) {
           let matches_kind = match kind {
-            NumericKind::Int => n.is_i64(),
+            // serde_json reports integers above i64::MAX as u64 only
+            NumericKind::Int => n.is_i64() || n.is_u64(),
             NumericKind::Float => n.is_f64(),
-            NumericKind::Both => n.is_i64() || n.is_f64(),
+            NumericKind::Both => n.is_i64() || n.is_u64() || n.is_f64(),
           };
           if matches_kind {
             return Ok(());
